@@ -1,7 +1,7 @@
 (* TTYEventDecoder over the regenerated production automaton (Gen/ProdDFA.v), the regenerated
    key names (Gen/C04Keys.v) and the code lists of DecMode / DecModeStatus::from_usize. *)
 From Coq Require Import List NArith Bool.
-From SNT Require Import Automata.DfaData Automata.Tokenizer Decoder.EvModel Decoder.KeyTable Decoder.Printer.
+From SNT Require Import Base.Outcome Automata.DfaData Automata.Tokenizer Decoder.EvModel Decoder.KeyTable Decoder.Printer.
 From SNT Require Import Gen.ProdDFA Gen.C04Keys.
 Import ListNotations.
 Local Open Scope N_scope.
@@ -33,3 +33,13 @@ Definition self_delimiting (w : list N) : bool :=
 Definition prod_wf (r : report) : bool := wf decmode_all prod_key_table r.
 
 Definition prod_denote := denote prod_key_table.
+
+(* the same events computed by the incremental tokeniser itself (one read holding the whole
+   stream): linear in the stream, used to evaluate the case files; equal to `prod_decode` by
+   C03's theorem (C04_chunking / C04_fast_decode) *)
+Definition prod_decode_fast (s : list N) : list tev :=
+  match feed N tev (d_start event_dfa) (d_delta event_dfa) (d_accepting event_dfa) (d_terminal event_dfa) prod_item
+             (length s + 3) (init (d_start event_dfa)) [s] with
+  | Ok (ts, _) => map (tok_event) ts
+  | _ => [ERaw [255; 255; 255; 255]]
+  end.
